@@ -3,7 +3,7 @@ import math
 
 import numpy as np
 
-from .. import gen, tol
+from .. import callform, gen, tol
 from ..models import integrate as I
 from ..models import search as S
 
@@ -382,7 +382,7 @@ def execute(rng, case):
         wv.trend(lambda t: scale * (a + b * np.sin(7 * (t - x0) / span) + c * ((t - x0) / span) ** 2))
         case["y"] = np.array(wv.get()[1], dtype=float).copy()
         case["x"] = np.array(wv.get()[0], dtype=float).copy()
-        wv.integral_match(**kw)
+        callform.call(rng, wv.integral_match, "Weaver.integral_match", [], kw, p_pos=0.3)
         rx, ry = wv.get()
         return ry
     conts = {}
@@ -392,7 +392,8 @@ def execute(rng, case):
         conts[name] = kind
         args.append(v)
     case["containers"] = conts
-    return integral_matching_reference_stretch(*args, **kw)
+    return callform.call(rng, integral_matching_reference_stretch, "match.integral_matching_reference_stretch", args, kw,
+                         p_pos=0.15, p_kw=0.15)
 
 
 def well_formed(res, m):
